@@ -19,4 +19,8 @@ theorem F6_recognisers_rejected_if_left_over :
     (modelRecognisers.filter (fun s => s != "$" && s != "$$" && s != "$\"")).all
       (fun s => match validateChars s.toList with | .ok _ => false | .error _ => true) = true := by decide
 
+/-- F14: the model's table of lower-case letters above Latin-1 (Bkl/UnicodeLower.lean, used by `isLowerModel` =
+    validate.go's `unicode.IsLower`) is the `unicode.Lower` table of the toolchain that builds /repo -/
+theorem F14_unicode_lower_table : Facts.unicodeLower = unicodeLowerRanges := by decide
+
 end Bkl
